@@ -24,7 +24,7 @@ func (c03) Size(tier string) Size {
 	return Size{Batches: 16, Cases: 1500}
 }
 func (c03) Rule() string {
-	return "case = document as in C02 (every primary-data kind, 0..n included, meta, errors, links, any prefix with/without trailing slash, IDs and soft type names with characters JSON must escape) marshaled once as given and once with its included list rebuilt through a random sequence of Document.Include calls that repeats resources and re-includes primary-data members, with the primary data held in SoftCollection, WrapperCollection, Resources and the collection Range returns; also documents with data AND errors, and with included but no data. Oracle: independent structure validator over the output bytes (valid JSON, no duplicate members, top-level object with jsonapi and links.self, data xor errors, included only with data, string type/id, links.self == prefix+type+id, relationship links and data shapes, and - when included was built through Include only - no type/ID pair twice across data and included). Thorough additionally re-parses every output with python3's json module. Non-trivial = document with included resources, a collection of >= 2 or a relationship with data; distinct = spec + include sequence hash."
+	return "case = document as in C02 (every primary-data kind, 0..n included, meta, errors, links, any prefix with/without trailing slash, IDs and soft type names with characters JSON must escape) marshaled once as given and once with its included list rebuilt through a random sequence of Document.Include calls that repeats resources and re-includes primary-data members, with the primary data held in SoftCollection, WrapperCollection, Resources (members of different types may share an ID) and the collection Range returns; also documents with data AND errors, and with included but no data. Oracle: independent structure validator over the output bytes (valid JSON, no duplicate members, top-level object with jsonapi and links.self, data xor errors, included only with data, string type/id, links.self == prefix+type+id, relationship links and data shapes, and - when included was built through Include only - no type/ID pair twice across data and included). Thorough additionally re-parses every output with python3's json module. Non-trivial = document with included resources, a collection of >= 2 or a relationship with data; distinct = spec + include sequence hash."
 }
 func (c03) Assumptions() []string {
 	return []string{"the self-link clause is judged on resources with non-empty id and type; raw concatenation and path-escaped type/id are both accepted",
@@ -281,6 +281,27 @@ func (m c03) Case(c *Ctx, r *RNG) {
 			break
 		}
 	}
+	// a mixed-type collection in which resources of different types have the same ID (users/1 next to articles/1)
+	shared := []int{}
+	if d.Kind == "collection" && d.Holder == "Resources" && len(d.Primary) >= 2 && r.Chance(1, 2) {
+		for tries := 0; tries < 8 && len(shared) == 0; tries++ {
+			i, j := r.Intn(len(d.Primary)), r.Intn(len(d.Primary))
+			if d.Primary[i].Type == d.Primary[j].Type {
+				continue
+			}
+			clash := false
+			for _, rs := range d.allResources() {
+				if rs.Type == d.Primary[j].Type && rs.ID == d.Primary[i].ID {
+					clash = true
+				}
+			}
+			if !clash {
+				d.Primary[j].ID = d.Primary[i].ID
+				shared = []int{i, j}
+				c.Count("primary_members_sharing_an_id_across_types")
+			}
+		}
+	}
 	if c.Index < 2 {
 		c.Sample(d)
 	}
@@ -322,6 +343,16 @@ func (m c03) Case(c *Ctx, r *RNG) {
 			}
 			incl = append(incl, c03include{Res: genResource(r, t, id), Primary: -1})
 		}
+	}
+	for _, pi := range shared {
+		// both of the primary members that share an ID are included again, as the member itself or as an equal object
+		at := r.Intn(len(incl) + 1)
+		ic := c03include{Res: d.Primary[pi], Primary: pi}
+		if r.Chance(1, 3) {
+			ic.Primary = -1
+		}
+		incl = append(incl[:at], append([]c03include{ic}, incl[at:]...)...)
+		c.Count("include_primary_member")
 	}
 	for i := range incl {
 		if r.Chance(1, 6) {
